@@ -6,6 +6,11 @@ namespace CogentModel.Phylo
 open PTree
 variable {K : Type}
 
+@[simp] theorem name_node (n : String) (l : Option K) (cs : List (PTree K)) : (PTree.node n l cs).name = n := rfl
+@[simp] theorem len_node (n : String) (l : Option K) (cs : List (PTree K)) : (PTree.node n l cs).len = l := rfl
+@[simp] theorem children_node (n : String) (l : Option K) (cs : List (PTree K)) :
+    (PTree.node n l cs).children = cs := rfl
+
 theorem tipsL_append (l1 l2 : List (PTree K)) : tipsL (l1 ++ l2) = tipsL l1 ++ tipsL l2 := by
   induction l1 with
   | nil => simp [tipsL]
@@ -21,6 +26,10 @@ theorem tips_node_ne_nil (n : String) (l : Option K) (cs : List (PTree K)) (h : 
   cases cs with
   | nil => exact absurd rfl h
   | cons c cs => simp [tips, tipsL]
+
+theorem tips_node_eq (n : String) (l : Option K) (cs : List (PTree K)) :
+    tips (PTree.node n l cs) = if cs = [] then [n] else tipsL cs := by
+  cases cs <;> simp [tips, tipsL]
 
 theorem tips_eta (t : PTree K) : t = .node t.name t.len t.children := by cases t; rfl
 
